@@ -114,6 +114,40 @@ type termer struct {
 	atoms map[string]bool
 	stack []*ssa.Function
 	phis  map[*ssa.Phi]bool
+	fns   []termFn
+}
+
+// termFn is a function value met on the way (a closure with the terms of what it captured, a bound method, a named
+// function). It is rendered as an opaque token; a call through a value whose only alternative is such a token is
+// looked through like a static call (`epochOfSlot(ctx, cl, p.Slot)`, `epochOfSlot(ctx, cl, fixedSlot(s.Slot))`).
+type termFn struct {
+	fn    *ssa.Function
+	binds [][]string
+}
+
+const termFnTok = "?fn#"
+
+func (t *termer) fnRef(fn *ssa.Function, binds [][]string) string {
+	t.fns = append(t.fns, termFn{fn, binds})
+	return fmt.Sprintf("%s%d", termFnTok, len(t.fns)-1)
+}
+
+func (t *termer) fnOf(ts []string) *termFn {
+	if len(ts) != 1 || !strings.HasPrefix(ts[0], termFnTok) {
+		return nil
+	}
+	var id int
+	if _, err := fmt.Sscanf(ts[0][len(termFnTok):], "%d", &id); err != nil || id < 0 || id >= len(t.fns) {
+		return nil
+	}
+	return &t.fns[id]
+}
+
+// termWrapper: compiler-made forwarding functions (promoted-method wrappers, bound-method closures, thunks) are
+// always looked through, so that `p.Slot` passed as a value denotes the same term as the call `p.Slot()`.
+func termWrapper(f *ssa.Function) bool {
+	return f != nil && len(f.Blocks) > 0 && f.Synthetic != "" &&
+		(strings.HasPrefix(f.Synthetic, "wrapper for") || strings.HasPrefix(f.Synthetic, "bound method wrapper for") || strings.HasPrefix(f.Synthetic, "thunk for"))
 }
 
 type termEnv map[ssa.Value][]string
@@ -199,6 +233,22 @@ func (t *termer) terms(v ssa.Value, env termEnv, d int) []string {
 			return []string{"nil"}
 		}
 		return []string{x.Value.ExactString()}
+	case *ssa.Function:
+		return []string{t.fnRef(x, nil)}
+	case *ssa.MakeClosure:
+		f, ok := x.Fn.(*ssa.Function)
+		if !ok {
+			return []string{"?closure"}
+		}
+		var binds [][]string
+		for _, b := range x.Bindings {
+			if al, ok := b.(*ssa.Alloc); ok {
+				binds = append(binds, t.allocTerms(al, env, d+1))
+			} else {
+				binds = append(binds, t.terms(b, env, d+1))
+			}
+		}
+		return []string{t.fnRef(f, binds)}
 	case *ssa.Field:
 		name := fieldNameOf(x.X.Type(), x.Field)
 		return termMap(t.terms(x.X, env, d+1), func(s string) string { return s + "." + name })
@@ -300,7 +350,21 @@ func (t *termer) callTerms(x *ssa.Call, idx int, env termEnv, d int) []string {
 		}
 		return fmt.Sprintf("%s#%d", s, idx)
 	}
-	if body := an.StaticBody(&x.Call); body != nil && !t.atoms[an.FuncName(body)] && len(t.stack) < 5 {
+	body := an.StaticBody(&x.Call)
+	var viaValue *termFn
+	if body == nil && !x.Call.IsInvoke() {
+		if f := x.Call.StaticCallee(); termWrapper(f) {
+			body = f
+		} else if f == nil {
+			if _, isBuiltin := x.Call.Value.(*ssa.Builtin); !isBuiltin {
+				// a call through a function value: a parameter / local bound to a closure, bound method or function
+				if tf := t.fnOf(t.terms(x.Call.Value, env, d+1)); tf != nil && (an.InRepo(tf.fn) || termWrapper(tf.fn)) && len(tf.binds) == len(tf.fn.FreeVars) {
+					body, viaValue = tf.fn, tf
+				}
+			}
+		}
+	}
+	if body != nil && len(body.Blocks) > 0 && !t.atoms[an.FuncName(body)] && len(t.stack) < 6 {
 		rec := false
 		for _, f := range t.stack {
 			if f == body {
@@ -322,7 +386,11 @@ func (t *termer) callTerms(x *ssa.Call, idx int, env termEnv, d int) []string {
 					env2[k] = v
 				}
 			}
-			if mc, ok := an.Resolve(x.Call.Value).(*ssa.MakeClosure); ok {
+			if viaValue != nil {
+				for i, fv := range body.FreeVars {
+					env2[fv] = viaValue.binds[i]
+				}
+			} else if mc, ok := an.Resolve(x.Call.Value).(*ssa.MakeClosure); ok {
 				for i, fv := range body.FreeVars {
 					if i < len(mc.Bindings) {
 						if al, ok := mc.Bindings[i].(*ssa.Alloc); ok {
